@@ -66,12 +66,15 @@ def Broker.submit (b : Broker) (orc : Oracle) (o : Ord) (inAuction : Bool) : Bro
       (r.1, evs ++ r.2)
     else (b1, evs)
 
-/-- `cancel_order(order)` as coded: no status check, removal from the regular book only -/
-def Broker.cancel (b : Broker) (id : Nat) : Broker × List OEvent :=
-  let upd := fun (o : Ord) => if o.id == id then o.markCancelled else o
-  ({ b with openOrders := (b.openOrders.map upd).filter (fun o => o.id != id),
-            auctionOrders := b.auctionOrders.map upd },
-   [.pendingCancel id, .cancellationPass id])
+/-- `cancel_order(order)`: nothing happens for an order that is already final (repaired: finding F23); otherwise
+PENDING_CANCEL, the order is marked cancelled, CANCELLATION_PASS, and it is removed from the REGULAR book only -/
+def Broker.cancel (b : Broker) (o : Ord) : Broker × List OEvent :=
+  if o.isFinal then (b, [])
+  else
+    let upd := fun (x : Ord) => if x.id == o.id then x.markCancelled else x
+    ({ b with openOrders := (b.openOrders.map upd).filter (fun x => x.id != o.id),
+              auctionOrders := b.auctionOrders.map upd },
+     [.pendingCancel o.id, .cancellationPass o.id])
 
 /-- `after_trading`: everything still in the regular book is rejected and announced; the book is emptied -/
 def Broker.afterTrading (b : Broker) : Broker × List OEvent :=
